@@ -12,12 +12,7 @@ ASSUMPTIONS = ["inputs are ASCII", "BLAKE3 has no collisions among the inputs ex
                "hash_inj states the double-stranded case on the strand-closed alphabet (normalised letters among the 15 IUPAC codes: no U under DNA, no Z), "
                "where 'equal up to strand' is an equivalence; hash_inj_general covers every accepted input with the conclusion "
                "'some strand of one equals, up to rotation, some strand of the other'"]
-PARTIAL = ["all clauses are proved at full strength for hashSpec = the Hash model whose rotation step is the arg-min least rotation "
-           "(Props/C05: hash_inj, hash_inj_general, hash_same_molecule, hash_form, hex_len, reject_type, reject_letter, reject_ds_protein - the "
-           "rejections for every rotation function, hence also for the Booth-loop model). For the circular cases, identifying the code's rotation "
-           "step (Booth-loop model) with the arg-min is C12's booth_least, which lives in the other worker's module Props/C12Booth.lean. The one-line "
-           "composition 'hash = hashSpec' (C04.hashWith_congr applied to booth_least) is deliberately not instantiated here; remove this entry once "
-           "that corollary is added."]
+PARTIAL = []
 TIMEOUT_MS = 120000
 
 PROT = "ACDEFGHIKLMNPQRSTVWYUO*BXZ"
@@ -68,7 +63,7 @@ LEVEL_TEXT = ("Theorems (Props/C05): equal hashes imply equal type, topology, st
               "canonical representative; unknown types, foreign letters and double-stranded proteins give an error. Tie: correspondence of "
               "seqhash.Hash with the model on all cases, and the partition-by-hash = partition-by-orbit check on every DNA word to length 9 "
               "under all four flag pairs in the thorough tier.")
-LEVEL_NOTE = "Trusted: Lean kernel; harness + polymodel; BLAKE3 collision-freeness is a hypothesis; Lean BLAKE3 tested against the Go one; stated modulo C12."
+LEVEL_NOTE = "Trusted: Lean kernel; harness + polymodel; BLAKE3 collision-freeness is a hypothesis; Lean BLAKE3 tested against the Go one; transferred to the Booth-loop model through C12 booth_least (model_hash_*)."
 
 HARNESS_BIN = "run-seq"
 EXTRACT_BINS = ["extract-seq"]
